@@ -430,7 +430,7 @@ fn copy_dir(src: &std::path::Path, dst: &std::path::Path) -> std::io::Result<()>
     Ok(())
 }
 
-fn make_bridge(idx: usize, account_id: AccountId, account: Arc<Mutex<LocalAccount>>, server: &SharedServer, tap: &Tap) -> Bridge {
+pub fn make_bridge(idx: usize, account_id: AccountId, account: Arc<Mutex<LocalAccount>>, server: &SharedServer, tap: &Tap) -> Bridge {
     let (queue, _) = tokio::sync::broadcast::channel::<FileTransferQueueRequest>(32);
     let origin = Origin::new("direct".to_string(), "http://127.0.0.1:5053".parse().unwrap());
     Bridge {
